@@ -162,6 +162,29 @@ var verifSGRe = regexp.MustCompile("\x1b\\[[0-9;]*m")
 	show in the feed.
 */
 func verifRunServed(out *verifkit.Trace, sim *verifsim.Sim, rng *rand.Rand, sid int, in verifSession) {
+	/* one source, some of the time, has a second page that cannot be fetched: what it contributes is its first page
+	   and then one failure entry (undated, so it sorts last) - once, after which the source is exhausted */
+	broken, breakAt := -1, 0
+	if rng.Intn(3) == 0 {
+		candidates := []int{}
+		for i, tss := range in.Sources {
+			isFailed := false
+			for _, f := range in.Failed {
+				isFailed = isFailed || f == i+1
+			}
+			if len(tss) >= 2 && !isFailed {
+				candidates = append(candidates, i)
+			}
+		}
+		if len(candidates) > 0 {
+			broken = candidates[rng.Intn(len(candidates))]
+			breakAt = 1 + rng.Intn(len(in.Sources[broken])-1)
+			copied := make([][]int, len(in.Sources))
+			copy(copied, in.Sources)
+			copied[broken] = append(append([]int{}, in.Sources[broken][:breakAt]...), 0)
+			in.Sources = copied
+		}
+	}
 	out.Emit(verifkit.M{"ev": "reset", "sid": sid, "sources": in.Sources, "failed": in.Failed, "served": true})
 	sim.Reset()
 	jtp.VerifSetCache(64)
@@ -179,6 +202,20 @@ func verifRunServed(out *verifkit.Trace, sim *verifsim.Sim, rng *rand.Rand, sid 
 		failed := false
 		for _, f := range in.Failed {
 			failed = failed || f == i+1
+		}
+		if i == broken {
+			/* first page with the items before the break, then a link that leads nowhere */
+			items := []any{}
+			for k := 0; k < breakAt; k++ {
+				note := map[string]any{"id": h.URL(fmt.Sprintf("%s/n%d", root, k+1)), "type": "Note", "name": fmt.Sprintf("s%dk%dt%d", i+1, k+1, tss[k]), "content": "<p>x</p>"}
+				if tss[k] != 0 {
+					note["published"] = fmt.Sprintf("2024-01-01T%02d:00:00Z", tss[k])
+				}
+				items = append(items, note)
+			}
+			serve(h, root+"?page=1", map[string]any{"type": "OrderedCollectionPage", "orderedItems": items, "next": h.URL(root + "?page=gone")}, 0)
+			serve(h, root, map[string]any{"type": "OrderedCollection", "totalItems": len(tss), "first": h.URL(root + "?page=1")}, 0)
+			continue
 		}
 		/* a source is a collection, or an actor listed by its address (then the feed takes the actor's outbox) */
 		asActor := rng.Intn(2) == 0
@@ -254,7 +291,10 @@ func verifRunServed(out *verifkit.Trace, sim *verifsim.Sim, rng *rand.Rand, sid 
 		tags := [][]int{}
 		for _, it := range items {
 			var a, b, ts int
-			if m := verifNameRe.FindStringSubmatch(verifSGRe.ReplaceAllString(it.Name(), "")); m != nil {
+			if _, isFailure := it.(*pub.Failure); isFailure && broken >= 0 {
+				/* the failure entry of the source whose second page is gone */
+				a, b, ts = broken+1, breakAt+1, 0
+			} else if m := verifNameRe.FindStringSubmatch(verifSGRe.ReplaceAllString(it.Name(), "")); m != nil {
 				fmt.Sscanf(m[1], "%d", &a)
 				fmt.Sscanf(m[2], "%d", &b)
 				fmt.Sscanf(m[3], "%d", &ts)
